@@ -16,7 +16,7 @@ import (
 
 func init() {
 	register("C10", "exploration", checkC10)
-	workers["parse"] = func(args []string) { hx.ServeWorker(args[0], parseCall) }
+	workers["parse"] = func(args []string) { hx.ServeWorker(args[0], probed(parseCall, parseProbe)) }
 }
 
 type parseCase struct {
